@@ -213,6 +213,10 @@ func runVirtualCase(r *ev.Run, idx int) {
 		Faults:     rng.IntN(10) < 6,
 		FinalWalk:  rng.IntN(2) == 0,
 	}
+	if r.Thorough() && rng.IntN(10) == 0 {
+		// A few larger trees and longer histories in the thorough tier.
+		c.prof.Budget, c.prof.Ops = 1500, 300+rng.IntN(300)
+	}
 	if rng.IntN(10) < 4 {
 		if rng.IntN(4) == 0 {
 			c.prof.BrokenBlobs = true
